@@ -16,6 +16,16 @@ package c07
 //	        secp256k1 form of key i (a different account than the EVM one) or with the
 //	        eth_secp256k1 key itself for the EVM account
 //
+//	acct    not a tx: before the first block the auth account behind key i (its EVM address, or with "cosmos" the
+//	        address of its secp256k1 form) is replaced by an account of another TYPE with the same number and
+//	        sequence: "base" = a plain BaseAccount as written by add-genesis-account (round 6; vesting account
+//	        types are not registered in this app's interface registry, so they cannot exist on this chain)
+//
+// Since round 6 a message may name one of the eight scenario accounts as its counterparty ("to"): the plain
+// transfer / drain pays it, call_pay calls it with value and calldata, fwd pays it from inside a contract call
+// (fwd_revert: then reverts), sd makes it the beneficiary of a selfdestruct — so accounts are touched by
+// OTHER signers' transactions between their own.
+//
 // Derived inputs handed to the model (computed here without the app): uid of a message (index of
 // the first message with the same tx hash), the chain id the tx carries, the address a
 // chain-agnostic ECDSA recovery yields (canonical id), whether that address is funded.
@@ -38,6 +48,7 @@ import (
 	"github.com/cosmos/cosmos-sdk/testutil/sims"
 	"github.com/cosmos/cosmos-sdk/x/authz"
 	sdk "github.com/cosmos/cosmos-sdk/types"
+	authtypes "github.com/cosmos/cosmos-sdk/x/auth/types"
 	bank "github.com/cosmos/cosmos-sdk/x/bank/types"
 	gethcommon "github.com/ethereum/go-ethereum/common"
 	gethcore "github.com/ethereum/go-ethereum/core/types"
@@ -65,10 +76,11 @@ type c07Msg struct {
 	Sig   string `json:"sig"`   // ok | zero_r | zero_s | high_s | flip_v | v29
 	Act   string `json:"act"`   // transfer | call_ok | call_revert | create_ok | create_revert | create_oog | lowgas
 	Salt  int    `json:"salt"`  // makes otherwise identical messages distinct (value in unibi)
+	To    int    `json:"to,omitempty"` // counterparty: 0 = a fixed outside address, 1..4 = EVM account of key to-1, 11..14 = Cosmos (secp256k1) account of key to-11
 }
 
 type c07Tx struct {
-	Kind   string   `json:"kind"` // eth | cosmos
+	Kind   string   `json:"kind"` // eth | cosmos | wrap | fund | acct
 	Msgs   []c07Msg `json:"msgs"`
 	Key    int      `json:"key"`    // cosmos: key index
 	Q      uint64   `json:"q"`      // cosmos: sequence signed
@@ -76,6 +88,8 @@ type c07Tx struct {
 	Bad    bool     `json:"bad"`    // cosmos: inner message fails (sends more than the balance)
 	Depth  int      `json:"depth"`  // wrap: 0 = the MsgEthereumTx itself inside an ordinary Cosmos tx, n = nested in n authz.MsgExec
 	Forge  string   `json:"forge"`  // wrap: unsigned From field of the wrapped message: "" | self (the submitter) | victim (the real signer)
+	Acc    string   `json:"acc,omitempty"`    // acct: account type ("base")
+	Cosmos bool     `json:"cosmos,omitempty"` // acct: the Cosmos (secp256k1) account of the key instead of the EVM one
 }
 
 type c07Der struct {
@@ -87,6 +101,7 @@ type c07Der struct {
 	Exec   string `json:"exec"`   // ok | vmerr | msgerr  (what the action does once executed)
 	Create bool   `json:"create"` // deploys a contract when executed successfully
 	VBOk   bool   `json:"vbok"`   // the message passes its stateless ValidateBasic (pure function of the message)
+	Touch  []int  `json:"touch"`  // scenario accounts (canonical ids) the execution pays when it runs to completion
 }
 
 type c07TxObs struct {
@@ -101,7 +116,21 @@ type c07World struct {
 	c      *Chain
 	target gethcommon.Address
 	z      gethcommon.Address
+	fwd    gethcommon.Address
+	sdf    gethcommon.Address
 	blocks int
+}
+
+// FWD: pays its call value to the address in calldata word 0 with an inner CALL; reverts afterwards when word 1 is non-zero
+var c07FwdRuntime = mustHex("600060006000600034600035" + "5af150" + "602035" + "601657" + "00" + "5b60006000fd")
+
+// SDF: creates a child endowed with the call value whose init code is PUSH20 <calldata word 0> SELFDESTRUCT
+var c07SdfRuntime = mustHex("6073600053" + "600035" + "60601b" + "600152" + "60ff601553" + "6016600034f0" + "00")
+
+// deployer: init code that returns runtime
+func c07Deployer(runtime []byte) []byte {
+	l := byte(len(runtime))
+	return append([]byte{0x60, l, 0x60, 0x0c, 0x60, 0x00, 0x39, 0x60, l, 0x60, 0x00, 0xf3}, runtime...)
 }
 
 var c07Runtime = mustHex("60003560085700005b60006000fd")
@@ -146,6 +175,17 @@ func newC07World(t *testing.T) *c07World {
 		t.Fatalf("deploy Z: %s", r.Log)
 	}
 	w.z = crypto.CreateAddress(d.EthAddr, 1)
+	for i, code := range [][]byte{c07FwdRuntime, c07SdfRuntime} {
+		msg, err = c.SignEth(d, &evm.EvmTxArgs{Nonce: uint64(2 + i), GasLimit: 500_000, GasPrice: unibiWei, Input: c07Deployer(code)})
+		if err != nil {
+			t.Fatal(err)
+		}
+		if r := c.DeliverEth(msg); r.Code != 0 {
+			t.Fatalf("deploy helper %d: %s", i, r.Log)
+		}
+	}
+	w.fwd = crypto.CreateAddress(d.EthAddr, 2)
+	w.sdf = crypto.CreateAddress(d.EthAddr, 3)
 	c.EndBlock()
 	return w
 }
@@ -153,6 +193,59 @@ func newC07World(t *testing.T) *c07World {
 type c07Keys struct {
 	eth    []evmtest.EthPrivKeyAcc
 	cosmos []*secp256k1.PrivKey
+}
+
+// counterparty resolves the "to" field of a message
+func (k c07Keys) counterparty(to int) (gethcommon.Address, int, bool) {
+	switch {
+	case to >= 1 && to <= nKeys:
+		return k.eth[to-1].EthAddr, to - 1, true
+	case to >= 11 && to <= 10+nKeys:
+		return gethcommon.BytesToAddress(k.cosmos[to-11].PubKey().Address()), to - 1, true
+	}
+	return gethcommon.HexToAddress("0x00000000000000000000000000000000000C07EE"), -1, false
+}
+
+// setKinds replaces the auth accounts named by the acct pseudo-txs of the history by accounts of the requested
+// type (same address, account number and sequence); returns the kinds of the eight observed accounts.
+func (w *c07World) setKinds(t *testing.T, k c07Keys, blocks [][]c07Tx) []string {
+	kinds := []string{"eth", "eth", "eth", "eth", "eth", "eth", "eth", "eth"}
+	c := w.c
+	any := false
+	for _, blk := range blocks {
+		for _, tx := range blk {
+			if tx.Kind != "acct" || tx.Acc != "base" {
+				continue
+			}
+			if !any {
+				c.BeginBlock(5 * time.Second)
+				any = true
+			}
+			i := tx.Key % nKeys
+			addr, slot := k.eth[i].NibiruAddr, i
+			if tx.Cosmos {
+				addr, slot = sdk.AccAddress(k.cosmos[i].PubKey().Address()), nKeys+i
+			}
+			ctx := c.Ctx()
+			ak := c.App.AccountKeeper
+			var num, seq uint64
+			if old := ak.GetAccount(ctx, addr); old != nil {
+				num, seq = old.GetAccountNumber(), old.GetSequence()
+			} else {
+				num = ak.NextAccountNumber(ctx)
+			}
+			ak.SetAccount(ctx, authtypes.NewBaseAccount(addr, nil, num, seq))
+			if _, isBase := ak.GetAccount(ctx, addr).(*authtypes.BaseAccount); !isBase {
+				t.Fatalf("account %s is not a BaseAccount", addr)
+			}
+			kinds[slot] = "base"
+		}
+	}
+	if any {
+		c.EndBlock()
+		w.blocks++
+	}
+	return kinds
 }
 
 func (w *c07World) freshKeys(t *testing.T) c07Keys {
@@ -190,12 +283,36 @@ func (w *c07World) build(k c07Keys, m c07Msg) *evm.MsgEthereumTx {
 	var data []byte
 	gas := uint64(100_000)
 	value := new(big.Int).Mul(big.NewInt(int64(m.Salt)), unibiWei)
+	cp, _, _ := k.counterparty(m.To)
+	word := func(a gethcommon.Address, flag byte) []byte {
+		b := make([]byte, 64)
+		copy(b[12:32], a.Bytes())
+		b[63] = flag
+		return b
+	}
 	switch m.Act {
 	case "transfer":
-		a := gethcommon.HexToAddress("0x00000000000000000000000000000000000C07EE")
+		a := cp
 		to = &a
+	case "call_pay": // a call with calldata that carries value, straight to the counterparty
+		a := cp
+		to = &a
+		data = []byte{0xc0, 0x7e, 0xe0, byte(m.Salt)}
+	case "fwd", "fwd_revert": // the counterparty is paid by an inner CALL of a contract (then the outer frame may revert)
+		a := w.fwd
+		to = &a
+		data = word(cp, 0)
+		if m.Act == "fwd_revert" {
+			data = word(cp, 1)
+		}
+		gas = 300_000
+	case "sd": // the counterparty is the beneficiary of a SELFDESTRUCT
+		a := w.sdf
+		to = &a
+		data = word(cp, 0)[:32]
+		gas = 300_000
 	case "lowgas":
-		a := gethcommon.HexToAddress("0x00000000000000000000000000000000000C07EE")
+		a := cp
 		to = &a
 		gas = 20_000
 	case "call_ok":
@@ -231,7 +348,7 @@ func (w *c07World) build(k c07Keys, m c07Msg) *evm.MsgEthereumTx {
 		value = big.NewInt(0)
 		gas = 1_000_000 + uint64(m.Salt)
 	case "drain": // sends 90% of the current balance away
-		a := gethcommon.HexToAddress("0x00000000000000000000000000000000000C07EE")
+		a := cp
 		to = &a
 		value = w.fraction(acc.EthAddr, 9, 10)
 	case "create_val": // creation endowed with half of the current balance
@@ -326,7 +443,7 @@ func execClass(act string) (string, bool) {
 	switch act {
 	case "lowgas":
 		return "msgerr", false
-	case "call_revert", "create_revert", "create_oog":
+	case "call_revert", "create_revert", "create_oog", "fwd_revert":
 		return "vmerr", false
 	case "create_ok", "create_val":
 		return "ok", true
@@ -339,6 +456,8 @@ type c07Sim struct {
 	ok    bool
 	fee   *big.Int
 	value *big.Int
+	pays  bool               // the value ends up with the scenario account cp when the message runs to completion
+	cp    gethcommon.Address
 }
 
 type c07Run struct {
@@ -455,11 +574,12 @@ func (r *c07Run) deliverWrapped(tx c07Tx, inner *evm.MsgEthereumTx) (res abci.Re
 	return res
 }
 
-func (w *c07World) runCase(t *testing.T, blocks [][]c07Tx) ([][][]c07Der, [][]c07TxObs, string) {
+func (w *c07World) runCase(t *testing.T, blocks [][]c07Tx) ([][][]c07Der, [][]c07TxObs, string, []string) {
 	r := &c07Run{w: w, k: w.freshKeys(t), byHash: map[string]int{}, ids: map[gethcommon.Address]int{}}
 	for i, a := range r.k.eth {
 		r.ids[a.EthAddr] = i
 	}
+	kinds := w.setKinds(t, r.k, blocks)
 	c := w.c
 	var ders [][][]c07Der
 	var obs [][]c07TxObs
@@ -473,6 +593,11 @@ func (w *c07World) runCase(t *testing.T, blocks [][]c07Tx) ([][][]c07Der, [][]c0
 			var td []c07Der
 			var txMsgs []*evm.MsgEthereumTx
 			var sims []c07Sim
+			if tx.Kind == "acct" { // applied before the first block (setKinds)
+				bd = append(bd, td)
+				bo = append(bo, c07TxObs{Exec: []int{}, Created: [][2]int{}, Seqs: r.seqs()})
+				continue
+			}
 			if tx.Kind == "fund" {
 				// not a tx: the driver tops the EVM account of key i up again (bank level)
 				if err := c.Fund(r.k.eth[tx.Key%nKeys].NibiruAddr, Unibi(1e13)); err != nil {
@@ -516,13 +641,24 @@ func (w *c07World) runCase(t *testing.T, blocks [][]c07Tx) ([][][]c07Der, [][]c0
 						rawAddr, hasSigner = a, true
 					}
 					d.Exec, d.Create = execClass(spec.Act)
+					d.Touch = []int{}
+					if _, id, ok := r.k.counterparty(spec.To); ok && etx.Value().Sign() > 0 {
+						switch spec.Act {
+						case "transfer", "drain", "call_pay", "fwd", "fwd_revert", "sd":
+							d.Touch = append(d.Touch, id)
+						}
+					}
 					vb := *msg
 					vb.From = ""
 					d.VBOk = (&vb).ValidateBasic() == nil
 					td = append(td, d)
 					cp := *msg
 					txMsgs = append(txMsgs, &cp)
-					sims = append(sims, c07Sim{addr: rawAddr, ok: hasSigner, fee: etx.Cost().Sub(etx.Cost(), etx.Value()), value: etx.Value()})
+					sm := c07Sim{addr: rawAddr, ok: hasSigner, fee: etx.Cost().Sub(etx.Cost(), etx.Value()), value: etx.Value()}
+					if len(d.Touch) > 0 {
+						sm.cp, _, sm.pays = r.k.counterparty(spec.To)
+					}
+					sims = append(sims, sm)
 				}
 				// balance bookkeeping (bank reads only): every message must afford its own cost against the
 				// pre-tx balance (AnteDecVerifyEthAcc); at execution a value the earlier messages of the same tx
@@ -550,6 +686,9 @@ func (w *c07World) runCase(t *testing.T, blocks [][]c07Tx) ([][][]c07Der, [][]c0
 						td[i].Exec, td[i].Create = "vmerr", false
 					} else {
 						remaining[sm.addr].Sub(remaining[sm.addr], sm.value)
+						if rem, tracked := remaining[sm.cp]; sm.pays && tracked { // paid to a signer of this tx (or to itself)
+							rem.Add(rem, sm.value)
+						}
 					}
 				}
 				if tx.Kind == "wrap" && len(txMsgs) == 1 {
@@ -617,12 +756,16 @@ func (w *c07World) runCase(t *testing.T, blocks [][]c07Tx) ([][][]c07Der, [][]c0
 		ders = append(ders, bd)
 		obs = append(obs, bo)
 	}
-	return ders, obs, w.c.ChainID.String()
+	return ders, obs, w.c.ChainID.String(), kinds
 }
 
 // ---------------------------------------------------------------- generation
 
-var c07Acts = []string{"transfer", "call_ok", "call_revert", "create_ok", "create_revert", "create_oog", "lowgas", "drain", "create_val", "call_val", "pre_revert"}
+var c07Acts = []string{"transfer", "call_ok", "call_revert", "create_ok", "create_revert", "create_oog", "lowgas", "drain", "create_val", "call_val", "pre_revert",
+	"call_pay", "fwd", "fwd_revert", "sd"}
+
+// acts that have a counterparty
+var c07Pays = map[string]bool{"transfer": true, "drain": true, "lowgas": true, "call_pay": true, "fwd": true, "fwd_revert": true, "sd": true}
 
 func genC07Case(r *Rng) [][]c07Tx {
 	exp := make([]uint64, nKeys)  // generator's own expectation of eth sequences (only steers generation)
@@ -636,9 +779,30 @@ func genC07Case(r *Rng) [][]c07Tx {
 	nb := r.Range(1, 4)
 	var blocks [][]c07Tx
 	salt := 1
+	// half of the histories run on accounts that are not all EthAccounts: the EVM account and / or the Cosmos
+	// account of some keys is a plain BaseAccount (add-genesis-account)
+	var accts []c07Tx
+	legacy := r.Chance(1, 2)
+	if legacy {
+		for i := 0; i < nKeys; i++ {
+			if r.Chance(1, 2) {
+				accts = append(accts, c07Tx{Kind: "acct", Key: i, Acc: "base"})
+			}
+			if r.Chance(1, 3) {
+				accts = append(accts, c07Tx{Kind: "acct", Key: i, Acc: "base", Cosmos: true})
+			}
+		}
+		if len(accts) == 0 {
+			accts = append(accts, c07Tx{Kind: "acct", Key: r.Intn(nFunded), Acc: "base"})
+		}
+	}
+	var cosmosSent []c07Tx
 	for b := 0; b < nb; b++ {
 		nt := r.Range(1, 6)
 		var blk []c07Tx
+		if b == 0 {
+			blk = append(blk, accts...)
+		}
 		for i := 0; i < nt; i++ {
 			if r.Chance(1, 16) {
 				blk = append(blk, c07Tx{Kind: "fund", Key: r.Intn(nFunded)})
@@ -679,6 +843,7 @@ func genC07Case(r *Rng) [][]c07Tx {
 					cexp[k]++
 				}
 				blk = append(blk, tx)
+				cosmosSent = append(cosmosSent, tx)
 				continue
 			}
 			nm := 1 + r.Pick(10, 4, 2) // 1..3 messages
@@ -706,12 +871,41 @@ func genC07Case(r *Rng) [][]c07Tx {
 				}
 				m := c07Msg{Dup: -1, S: s, N: tmp[s], Ty: r.Pick(5, 2, 3), Cid: "ok", Sig: "ok", Salt: salt}
 				salt++
-				m.Act = c07Acts[r.Pick(5, 3, 3, 3, 1, 1, 2, 1, 2, 1, 3)]
+				m.Act = c07Acts[r.Pick(5, 3, 3, 3, 1, 1, 2, 1, 2, 1, 3, 2, 2, 1, 2)]
+				if legacy && r.Chance(1, 4) {
+					m.Act = []string{"transfer", "call_pay", "fwd", "sd", "drain"}[r.Pick(4, 2, 2, 2, 1)]
+				}
 				if j > 0 && r.Chance(1, 3) {
 					// a later message of a multi-message tx whose value the earlier ones may have spent
 					m.Act = []string{"create_val", "call_val", "drain"}[r.Pick(3, 1, 1)]
 					if tx.Msgs[0].Dup < 0 && r.Chance(1, 2) {
 						tx.Msgs[0].Act = []string{"drain", "create_val"}[r.Intn(2)]
+					}
+				}
+				if c07Pays[m.Act] && (r.Chance(1, 2) || (legacy && r.Chance(1, 2))) {
+					// the counterparty is another scenario account (sometimes the sender itself): an EVM account
+					// or the Cosmos account of a key — in a history with BaseAccounts mostly one of those
+					m.To = 1 + r.Intn(nKeys)
+					if r.Chance(1, 3) {
+						m.To += 10
+					}
+					if legacy && r.Chance(3, 4) {
+						// prefer BaseAccounts that (as far as the generator can tell) have executed txs already
+						var withHistory []c07Tx
+						for _, a := range accts {
+							if (a.Cosmos && cexp[a.Key] > 0) || (!a.Cosmos && exp[a.Key] > 0) {
+								withHistory = append(withHistory, a)
+							}
+						}
+						pool := accts
+						if len(withHistory) > 0 && r.Chance(3, 4) {
+							pool = withHistory
+						}
+						a := pool[r.Intn(len(pool))]
+						m.To = 1 + a.Key
+						if a.Cosmos {
+							m.To += 10
+						}
 					}
 				}
 				switch r.Pick(12, 2, 2, 1, 1) { // nonce: exact, gap, stale, same-as-previous-in-tx, far
@@ -756,6 +950,27 @@ func genC07Case(r *Rng) [][]c07Tx {
 		}
 		blocks = append(blocks, blk)
 	}
+	// histories with BaseAccounts: a block in which one key pays them (plain transfer, call with value, from inside a
+	// contract call, as selfdestruct beneficiary) after they have sent their own txs
+	if legacy && nmsg > 0 && r.Chance(2, 3) {
+		var blk []c07Tx
+		s := r.Intn(nFunded)
+		for i, a := range accts {
+			if i >= 3 {
+				break
+			}
+			m := c07Msg{Dup: -1, S: s, N: exp[s], Ty: r.Pick(5, 2, 3), Cid: "ok", Sig: "ok", Salt: salt, To: 1 + a.Key,
+				Act: []string{"transfer", "call_pay", "fwd", "sd"}[r.Intn(4)]}
+			if a.Cosmos {
+				m.To += 10
+			}
+			salt++
+			exp[s]++
+			blk = append(blk, c07Tx{Kind: "eth", Msgs: []c07Msg{m}})
+			nmsg++
+		}
+		blocks = append(blocks, blk)
+	}
 	// a closing block resubmits every message delivered so far, byte for byte, one per tx
 	if nmsg > 0 && r.Chance(2, 3) {
 		var blk []c07Tx
@@ -766,6 +981,9 @@ func genC07Case(r *Rng) [][]c07Tx {
 		}
 		for i := 0; i < nmsg && i < 14; i++ {
 			blk = append(blk, c07Tx{Kind: "eth", Msgs: []c07Msg{{Dup: i}}})
+		}
+		for i := 0; i < len(cosmosSent) && i < 4; i++ { // the Cosmos-signed txs too (same key, same signed sequence: same bytes)
+			blk = append(blk, cosmosSent[i])
 		}
 		if r.Chance(1, 2) { // … and once more through nested authz.MsgExec by a stranger who forges From
 			k := r.Intn(nFunded)
@@ -795,8 +1013,8 @@ func TestC07(t *testing.T) {
 		if w == nil || w.blocks > 400 {
 			w = newC07World(t)
 		}
-		der, obs, chain := w.runCase(t, blocks)
-		em.Emit(blocks, obs, map[string]interface{}{"der": der, "chain": chain})
+		der, obs, chain, kinds := w.runCase(t, blocks)
+		em.Emit(blocks, obs, map[string]interface{}{"der": der, "chain": chain, "kinds": kinds})
 	}
 	if cfg.Replay != "" {
 		for _, raw := range cfg.ReplayInputs(t) {
@@ -839,6 +1057,17 @@ func TestC07(t *testing.T) {
 		wr(1, 2, 2, "", 0), wr(1, 3, 2, "victim", 0)}, {e(dup(1)), e(dup(0)), e(m(0, 2, "transfer", 3))}})
 	// … precompile calls around a reverted frame (StateDB flushes the sender with its temporarily reset nonce)
 	run([][]c07Tx{{e(m(0, 0, "pre_revert", 1))}, {e(dup(0)), e(m(0, 1, "pre_revert", 2), m(0, 2, "transfer", 3))}, {e(dup(0)), e(dup(2)), e(dup(3)), e(m(0, 3, "call_ok", 4))}})
+	// … accounts of another auth type (BaseAccount, as add-genesis-account writes them) that execute txs and are then
+	// paid / called / named selfdestruct beneficiary by OTHER signers, on the EVM address and on the Cosmos address of
+	// a key; then every signed tx (Ethereum and Cosmos) is delivered again
+	to := func(x c07Msg, t int) c07Msg { x.To = t; return x }
+	ac := func(key int, cosmos bool) c07Tx { return c07Tx{Kind: "acct", Key: key, Acc: "base", Cosmos: cosmos} }
+	cq := func(key int, q uint64) c07Tx { return c07Tx{Kind: "cosmos", Key: key, Q: q} }
+	run([][]c07Tx{{ac(0, false), ac(1, false), ac(1, true), ac(3, false), e(m(0, 0, "transfer", 1)), e(m(0, 1, "create_ok", 2)), e(m(1, 0, "call_ok", 3)), cq(1, 0), cq(1, 1)},
+		{e(to(m(2, 0, "transfer", 4), 1)), e(dup(0)), e(dup(1))},
+		{e(to(m(2, 1, "fwd", 5), 2), to(m(2, 2, "fwd_revert", 6), 2)), e(dup(2))},
+		{e(to(m(2, 3, "sd", 7), 12)), cq(1, 0), cq(1, 1), e(to(m(2, 4, "call_pay", 8), 4)), e(to(m(0, 2, "transfer", 9), 1))},
+		{e(dup(0)), e(dup(1)), e(dup(2)), e(dup(3)), e(dup(6)), cq(1, 0), cq(1, 2), e(m(0, 3, "transfer", 10)), e(m(1, 1, "transfer", 11))}})
 	rng := NewRng(cfg.Seed)
 	for i := 0; i < cfg.N; i++ {
 		run(genC07Case(rng.Fork()))
